@@ -69,7 +69,7 @@ fuzz_campaign() {
         rsync -a --delete --exclude target --exclude work "$ROOT/fuzz/" "$FUZZ/"
         sed -i 's#path = "../harness"#path = "../alt-harness"#' "$FUZZ/Cargo.toml"
     fi
-    local runs="${VERIF_FUZZ_RUNS:-400000}"
+    local runs="${VERIF_FUZZ_RUNS:-800000}"
     local seed="${VERIF_SEED:-20260925}"
     seed=$(( (seed % 2147483646) + 1 ))
     if ! (cd "$FUZZ" && cargo +nightly fuzz build -s none --fuzz-dir "$FUZZ" >"$FUZZ/build.log" 2>&1); then
@@ -81,17 +81,34 @@ fuzz_campaign() {
     local work="$FUZZ/work/$id"
     rm -rf "$work"; mkdir -p "$work"
     local pids=()
+    # a property with one target runs it in 4 processes (distinct seeds, shared corpus directory, a
+    # quarter of the runs each); C03's five targets run one process each
+    local nt; nt=$(echo $targets | wc -w)
+    local procs="${VERIF_FUZZ_PROCS:-$([ "$nt" -eq 1 ] && echo 4 || echo 1)}"
+    local per=$(( (runs + procs - 1) / procs ))
     for t in $targets; do
         mkdir -p "$work/$t/corpus" "$work/$t/artifacts"
         "$TARGET/release/vcheck" gen-corpus "$t" "$work/$t/corpus" >/dev/null
         [ -d "$ROOT/corpus/$t" ] && cp "$ROOT/corpus/$t"/* "$work/$t/corpus/" 2>/dev/null
-        ( "$BIN/$t" -runs="$runs" -seed="$seed" -max_len=4096 -len_control=0 -timeout=25 \
-              -rss_limit_mb=4096 -malloc_limit_mb=1024 -print_final_stats=1 \
-              -artifact_prefix="$work/$t/artifacts/" "$work/$t/corpus" >"$work/$t/log" 2>&1
-          echo $? >"$work/$t/exit" ) &
-        pids+=($!)
+        for i in $(seq 1 "$procs"); do
+            ( "$BIN/$t" -runs="$per" -seed="$(( seed + i - 1 ))" -max_len=4096 -len_control=0 -timeout=25 \
+                  -rss_limit_mb=4096 -malloc_limit_mb=1024 -print_final_stats=1 \
+                  -artifact_prefix="$work/$t/artifacts/" "$work/$t/corpus" >"$work/$t/log.$i" 2>&1
+              echo $? >"$work/$t/exit.$i" ) &
+            pids+=($!)
+        done
     done
     for p in "${pids[@]}"; do wait "$p"; done
+    for t in $targets; do
+        # worst exit status of the target's processes; concatenated log for the messages below
+        local worst=0
+        for i in $(seq 1 "$procs"); do
+            local e; e=$(cat "$work/$t/exit.$i" 2>/dev/null || echo 99)
+            [ "$e" != "0" ] && worst="$e"
+        done
+        echo "$worst" >"$work/$t/exit"
+        cat "$work/$t"/log.* >"$work/$t/log"
+    done
     local rc=0
     local rdir="${VERIF_REPLAY_DIR:-$ROOT/replays}"
     mkdir -p "$rdir"
@@ -125,18 +142,24 @@ except Exception:
     sys.exit(0)
 fz = []
 total = 0
+import glob
 for t in targets:
-    log = open(os.path.join(work, t, 'log'), errors='replace').read()
-    def stat(name):
-        m = re.search(r'stat::%s:\s+(\d+)' % name, log)
-        return int(m.group(1)) if m else None
-    cov = re.findall(r'cov: (\d+) ft: (\d+) corp: (\d+)', log)
-    runs = stat('number_of_executed_units') or 0
+    runs = 0; eps = 0; edges = None; feats = None; corp = None; procs = 0
+    for lp in sorted(glob.glob(os.path.join(work, t, 'log.*'))):
+        log = open(lp, errors='replace').read()
+        procs += 1
+        def stat(name):
+            m = re.search(r'stat::%s:\s+(\d+)' % name, log)
+            return int(m.group(1)) if m else None
+        cov = re.findall(r'cov: (\d+) ft: (\d+) corp: (\d+)', log)
+        runs += stat('number_of_executed_units') or 0
+        eps += stat('average_exec_per_sec') or 0
+        if cov:
+            edges = max(edges or 0, int(cov[-1][0])); feats = max(feats or 0, int(cov[-1][1])); corp = max(corp or 0, int(cov[-1][2]))
     total += runs
     fz.append({"target": t, "engine": "libFuzzer (cargo-fuzz, no sanitizer: the library is safe Rust; debug assertions and overflow checks on)",
-               "executed_units": runs, "average_exec_per_sec": stat('average_exec_per_sec'),
-               "edges_covered": int(cov[-1][0]) if cov else None, "features": int(cov[-1][1]) if cov else None,
-               "corpus_units": int(cov[-1][2]) if cov else None,
+               "processes": procs, "executed_units": runs, "exec_per_sec_all_processes": eps,
+               "edges_covered": edges, "features": feats, "corpus_units": corp,
                "exit": open(os.path.join(work, t, 'exit')).read().strip()})
 ev['coverage']['fuzz_campaigns'] = fz
 ev['coverage']['fuzz_executions'] = total
